@@ -141,6 +141,10 @@ def parse_san_logs(paths):
             m2 = re.search(r'([\w./-]+):(\d+):(\d+): runtime error: (.*)', ln)
             if m:
                 tool, cls = m.group(1), m.group(2).strip().replace(' ', '-')
+                if cls == 'attempting':
+                    cls = 'double-free' if 'double-free' in ln else 'bad-free'
+                if cls == 'detected' and 'memory leaks' in ln:
+                    cls = 'leak'
                 blk = [ln]
                 j = i + 1
                 while j < len(lines) and not lines[j].startswith('=====') and 'SUMMARY:' not in lines[j] and j - i < 400:
